@@ -39,6 +39,9 @@ def trees():
     out["chain-doomed-rhs"] = (m8, {"A": ("dedup", m8), "B": ("sel", m8, ("lt", A_, B_))}, True)
     m9 = ("mat", ("xfer", selx, "it2"), "m9")
     out["mat-under-transfers"] = (m9, {"A": ("xfer", ("xfer", m9, "sq"), "it1"), "B": ("xfer", ("sel", ("xfer", m9, "sq"), ("lt", A_, B_)), "it1")}, True)
+    # a user-defined marker (documented extension point) between the transfer and the materialization
+    m10 = ("mat", ("tag", ("xfer", selx, "it2")), "m10")
+    out["user-marker"] = (m10, {"A": ("sort", m10, ((A_, False), (B_, True))), "B": ("xfer", ("dedup", m10), "it1")}, True)
     m6 = ("mat", ("proj", X, ("a", "b")), "m6")
     out["chain-shared"] = (m6, {"A": ("chain", m6, m6), "B": ("chain", ("sel", m6, ("gt", A_, ("lit", "$k"))), m6)}, False)
     return out
